@@ -240,8 +240,14 @@ def mc_and_replay(run, name, alphabet, maxlen, enc, policies=ALL_POL, cmts=(0, 3
     run.add_tlc('CsvReader:%s:len<=%d' % (name, maxlen), res)
     ntexts = sum(len(alphabet) ** k for k in range(maxlen + 1))
     want = ntexts * len(policies) * len(cmts)
-    if len(res.cases) != want:
-        core.machinery_failure('%s: expected %d emitted cases (one per text x policy x comment: unique terminal state), got %d' % (name, want, len(res.cases)))
+    # one case per (text, policy, comment); an error can leave different unread remainders behind on different schedules, so the
+    # same case may be printed from several terminal states (their Result is equal by the invariant ScheduleIndependent)
+    uniq = {}
+    for c in res.cases:
+        uniq[(tuple(c['text']), c['policy'], c['cmt'])] = c
+    if len(uniq) != want:
+        core.machinery_failure('%s: expected %d emitted cases (one per text x policy x comment), got %d' % (name, want, len(uniq)))
+    res.cases = list(uniq.values())
     run.sample({'config': name, 'case': res.cases[len(res.cases) * 2 // 3]})
     out = par.pmap(_replay, res.cases, chunk=500)
     for case, (runs, sigs) in zip(res.cases, out):
